@@ -30,7 +30,7 @@ HEADER = '''(* Written with scripts/author/{script} (committed output; the check
    the freshly generated Gen/{unit}.v).  Property {prop}. *)
 From Coq Require Import Reals List Lra.
 From SV Require Import Base.GenPrelude Base.Mat Doc.Groups Base.Tactics Gen.{unit}.
-Import ListNotations.
+{extra}Import ListNotations.
 Local Open Scope R_scope.
 
 '''
@@ -47,23 +47,33 @@ class Book:
         s.props = []      # (unit, name, stmt)
     def start(s, unit, gen_units=None, extra_imports=""):
         gen_units = gen_units or [unit]
-        hdr = HEADER.format(script=s.script, unit=gen_units[0], prop=s.prop)
+        hdr = HEADER.format(script=s.script, unit=gen_units[0], prop=s.prop, extra=extra_imports)
         for u in gen_units[1:]:
             hdr = hdr.replace(f"Gen.{gen_units[0]}.", f"Gen.{gen_units[0]} Gen.{u}.", 1) if False else hdr
         if len(gen_units) > 1:
             hdr = hdr.replace(f"Gen.{gen_units[0]}.", "Gen." + " Gen.".join(gen_units) + ".")
-        s.files[unit] = hdr + extra_imports
+        s.files[unit] = hdr
     def lemma(s, unit, name, stmt, proof, export=True):
         s.files[unit] += f"Lemma {name} :\n  {stmt}.\nProof.\n{proof}\nQed.\n\n"
         if export:
             s.props.append((unit, name, stmt))
     def raw(s, unit, text):
         s.files[unit] += text
-    def write(s, extra_props_imports=""):
+    def write(s, extra_props_imports="", thorough_units=()):
         for unit, txt in s.files.items():
             open(os.path.join(COQDIR, "Proofs", f"{s.prop}_{unit}.v"), "w").write(txt)
-        o = f"(* Property {s.prop}: the property theorems and nothing else.  Each is closed by the lemma of the same\n   name proved in Proofs/{s.prop}_<unit>.v against the generated model; Print Assumptions lists the axioms. *)\n"
-        o += "From Coq Require Import Reals List Lra.\nFrom SV Require Import Base.GenPrelude Base.Mat Doc.Groups.\n"
+        allprops = s.props
+        if thorough_units:
+            s.props = [x for x in allprops if x[0] in thorough_units]
+            s._write_props(extra_props_imports, f"Properties_{s.prop}x.v", "(thorough tier: the most expensive instances)")
+            s.props = [x for x in allprops if x[0] not in thorough_units]
+        s._write_props(extra_props_imports, f"Properties_{s.prop}.v", "")
+        s.props = allprops
+    def _write_props(s, extra_props_imports, fname, remark):
+        o = f"(* Property {s.prop}: the property theorems and nothing else {remark}.  Each is closed by the lemma of the same\n   name proved in Proofs/{s.prop}_<unit>.v against the generated model; Print Assumptions lists the axioms. *)\n"
+        o += "From Coq Require Import Reals List Lra.\n" + (extra_props_imports if "Coquelicot" in extra_props_imports else "") + "From SV Require Import Base.GenPrelude Base.Mat Doc.Groups.\n"
+        if "Coquelicot" in extra_props_imports:
+            extra_props_imports = ""
         units = []
         for u, _, _ in s.props:
             if u not in units:
@@ -75,4 +85,4 @@ class Book:
         for u, name, stmt in s.props:
             q = stmt
             o += f"Theorem {s.prop}_{name} :\n  {q}.\nProof. exact Proofs.{s.prop}_{u}.{name}. Qed.\nPrint Assumptions {s.prop}_{name}.\n\n"
-        open(os.path.join(COQDIR, "Props", f"Properties_{s.prop}.v"), "w").write(o)
+        open(os.path.join(COQDIR, "Props", fname), "w").write(o)
